@@ -18,10 +18,22 @@ Coverage of the property text, clause by clause (stream -> what it reaches):
   totality      disjoint labels of equal shape (`disjoint`), zero-bias variable only on one side with the other
                 side's label registered in the parent CQM (`zerovar`), foreign objects, numbers
   reflexive / symmetric   `none` pairs, both directions of is_equal compared with each other and with the spec
-  == / !=       BQM receivers (the only class where they mean equality)
+  other operand is a number   stream `number`: BQM (3 dtypes, vartype views), QM (2 dtypes), objective / constraint
+                views, occasionally a CQM - constant-only (65%) or with variables - against int, float, bool,
+                np.int8/16/32/64, np.uint8/16, np.float16/32/64, np.complex64, np.bool_ (not a Number: treated as
+                a foreign object), Fraction, Decimal, complex with zero / non-zero imaginary part; value equal to
+                the offset or off by a large or tiny amount; is_equal, is_almost_equal (three places + default),
+                bool(model == n), model != n, and for non-numpy numbers the reflected n == model, n != model
+                (BQM and QM receivers: `==` builds sym.Eq whose truth value is is_equal)
+                NOT asked (reported defects of the unchanged tree, cases kept in corpus/C18/_pending):
+                is_almost_equal(Decimal) on float-dtype models and is_almost_equal(complex) on an object-dtype BQM
+                raise TypeError
+  == / !=       BQM receivers against models and foreign objects (the only class where they mean equality there)
 Not reached: labels equal across types (1 / 1.0 / True), NaN / inf biases, negative `places`, bounds (outside the
 documented scope), is_almost_equal in the b->a direction on the same pair (covered statistically by the swap)."""
 import copy
+import decimal
+import numbers
 from fractions import Fraction
 import numpy as np
 import dimod
@@ -367,7 +379,51 @@ def gen_case(rng, tier):
     return c
 
 
+INT_KINDS = {'int': (-8, 8), 'npi8': (-8, 8), 'npi16': (-8, 8), 'npi32': (-8, 8), 'npi64': (-8, 8), 'npu8': (0, 8),
+             'npu16': (0, 8), 'bool': (0, 1), 'npbool': (0, 1)}
+FRAC_KINDS = ['float', 'np64', 'np32', 'np16', 'frac', 'dec', 'cplx0', 'cplx', 'npc64']
+NUM_FORMS = ['bqm64', 'bqm32', 'bqmobj', 'bqmview', 'qm', 'qm32', 'objview', 'conview']
+
+
+def number_pair(rng):
+    """stream `number`: the "other operand is a number" clause for every model class (constant-only or not) with
+    every kind of number - int, float, bool, numpy integer / floating scalars of several widths, numpy bool and
+    complex, Fraction, Decimal, complex with zero and non-zero imaginary part - equal or unequal (by a large or a
+    tiny amount) to the model's offset"""
+    t = rng.choice(list(INT_KINDS) + FRAC_KINDS + ['int', 'float', 'np32', 'npi64', 'frac'])
+    form = rng.choice(NUM_FORMS * 3 + ['cqm'])
+    if t in INT_KINDS:
+        lo, hi = INT_KINDS[t]
+        off = Fraction(rng.randint(lo, hi))
+    else:
+        off = q4(rng) if rng.random() < 0.7 else Fraction(rng.randint(-8, 8))
+    if rng.random() < 0.65 and form != 'cqm':
+        desc = {"vars": [], "lin": [], "quad": [], "off": str(off)}
+        if form.startswith('bqm'):
+            desc["vartype"] = rng.choice(['BINARY', 'SPIN'])
+    else:
+        desc = rand_desc(rng, single=rng.choice(['BINARY', 'SPIN']) if form.startswith('bqm') else None, nmin=1)
+        desc["off"] = str(off)
+    a = {"kind": "model", "form": form, "desc": desc}
+    if form == 'cqm':
+        a["cons"] = rand_constraints(rng, desc)
+    if form == 'bqmview':
+        a["view_of"] = rng.choice(['same', 'other'])
+    v = off
+    if rng.random() < 0.45:
+        if t in INT_KINDS:
+            lo, hi = INT_KINDS[t]
+            v = off + rng.choice([1, -1, 2])
+            if not lo <= v <= hi:
+                v = off - 1 if off - 1 >= lo else off + 1
+        else:
+            v = off + delta(rng)
+    return {"a": a, "b": {"kind": "number", "v": str(v), "t": t, "mut": 'number'}, "stream": "number"}
+
+
 def gen_pair(rng, tier):
+    if rng.random() < 0.12:
+        return number_pair(rng)
     if rng.random() < 0.10:
         a, b = zero_variable_pair(rng)
         return {"a": a, "b": b}
@@ -458,7 +514,17 @@ def build_qm(desc, dtype=np.float64):
 def build(s, keep):
     if s["kind"] == "number":
         v = F(s["v"])
-        return {'int': int, 'float': float, 'np64': np.float64}[s["t"]](v)
+        mk = {'int': int, 'float': float, 'np64': np.float64, 'np32': np.float32, 'np16': np.float16,
+              'npi8': np.int8, 'npi16': np.int16, 'npi32': np.int32, 'npi64': np.int64, 'npu8': np.uint8,
+              'npu16': np.uint16, 'bool': lambda x: bool(int(x)), 'npbool': lambda x: np.bool_(int(x)),
+              'frac': Fraction, 'dec': lambda x: decimal.Decimal(x.numerator) / decimal.Decimal(x.denominator),
+              'cplx0': lambda x: complex(float(x), 0.0), 'cplx': lambda x: complex(float(x), 1.0),
+              'npc64': lambda x: np.complex64(float(x))}[s["t"]]
+        if s["t"] in ('int', 'npi8', 'npi16', 'npi32', 'npi64', 'npu8', 'npu16'):
+            return mk(int(v))
+        if s["t"] in ('float', 'np64', 'np32', 'np16'):
+            return mk(float(v))
+        return mk(v)
     if s["kind"] == "other":
         return {'str': 'abc', 'none': None, 'dict': {'a': 1}, 'list': [1, 2]}[s["what"]]
     d, f = s["desc"], s["form"]
@@ -551,9 +617,29 @@ def c_obj(x, T, CT):
         return f"(OCqm (mkCqm {c_emdl(x.objective, T)} {qv} {cons}))"
     if is_model(x):
         return f"(OModel {c_emdl(x, T)})"
-    if isinstance(x, (int, float, np.number)) and not isinstance(x, bool):
-        return f"(ONumber {cq(F(x))})"
+    q = num_value(x)
+    if q is not None:
+        return f"(ONumber {cq(q)})"
     return "OOther"
+
+
+def is_num(x):
+    """numbers.Number as the implementation tests it; np.bool_ is not one (it is handled like a foreign object)"""
+    return isinstance(x, numbers.Number)
+
+
+def num_value(x):
+    """exact rational value of a number object; None for a non-number and for a complex number that is not real
+    (which equals no model: a model's offset is real)"""
+    if not is_num(x):
+        return None
+    if isinstance(x, bool):
+        return Fraction(int(x))
+    if isinstance(x, (complex, np.complexfloating)):
+        return Fraction(float(x.real)) if x.imag == 0 else None
+    if isinstance(x, decimal.Decimal):
+        return Fraction(x)
+    return F(x)
 
 
 def call(f):
@@ -586,21 +672,36 @@ def run_case(c):
         almost = [(p, call(lambda: a.is_almost_equal(b, places=p))) for p in c.get("places", (0, 3, 7))]
     if "places" in c:
         almost.append((7, call(lambda: a.is_almost_equal(b))))       # the documented default
+    # reported defects of the unchanged tree, not asked again (see corpus/C18/_pending): is_almost_equal raises
+    # TypeError for a decimal.Decimal (float - Decimal) and, on an object-dtype BQM, for a complex number
+    # (complex defines no __round__), although is_equal accepts both
+    if isinstance(b, decimal.Decimal) or (isinstance(b, (complex, np.complexfloating))
+                                          and isinstance(a, dimod.BinaryQuadraticModel) and a.dtype == object):
+        if not c.get("ask_known_raising"):
+            almost = []
     for tag, r in [("a.is_equal(b)", ab), ("b.is_equal(a)", ba)] + [(f"is_almost_equal(places={p})", r) for p, r in almost]:
         if r is not None and r[0] == "bad":
             py_fail = f"{tag} returned a non-boolean: {r[1]}"
         if r is not None and r[0] == "raised":
             feats["raised"] = r[1].split(":")[0]
     # == and != are equality on BinaryQuadraticModel receivers (for non-numbers)
-    if isinstance(a, dimod.BinaryQuadraticModel) and not isinstance(b, (int, float, np.number)) and ab[0] == "ok":
+    if isinstance(a, dimod.BinaryQuadraticModel) and not is_num(b) and ab[0] == "ok":
         eq, ne = call(lambda: a == b), call(lambda: a != b)
         if eq != ab or ne != ("ok", not ab[1]):
             py_fail = f"a == b gave {eq}, a != b gave {ne}, a.is_equal(b) gave {ab}"
             feats["eq_operator"] = True
-    if isinstance(a, dimod.BinaryQuadraticModel) and isinstance(b, (int, float, np.number)) and ab[0] == "ok":
-        ne = call(lambda: a != b)
-        if ne != ("ok", not ab[1]):
-            py_fail = f"a != number gave {ne}, a.is_equal(number) gave {ab}"
+    # against a number `==` builds a sym.Eq whose truth value is is_equal (BQM and QM receivers); `!=` is its
+    # negation (BQM.__ne__; for a QM Python's default __ne__ inverts __eq__).  A Python number, Fraction or Decimal
+    # on the LEFT defers to the model's reflected method (numpy scalars answer themselves - numpy's business)
+    if isinstance(a, (dimod.BinaryQuadraticModel, dimod.QuadraticModel)) and is_num(b) and ab[0] == "ok":
+        feats["num_kind"] = type(b).__name__
+        obs = [("bool(a == n)", call(lambda: bool(a == b)), ab[1]), ("a != n", call(lambda: bool(a != b)), not ab[1])]
+        if not isinstance(b, (np.generic,)):
+            obs += [("bool(n == a)", call(lambda: bool(b == a)), ab[1]), ("n != a", call(lambda: bool(b != a)), not ab[1])]
+        for tag, r, want in obs:
+            if r != ("ok", want):
+                py_fail = f"{tag} gave {r} for n = {b!r} ({type(b).__name__}) although a.is_equal(n) gave {ab}"
+                feats["eq_operator_number"] = True
     # open finding: a view's get_linear / vartype answer (0.0 / the CQM's vartype) for a variable of the parent
     # CQM that the expression does not contain, so is_almost_equal accepts models over DIFFERENT labels.
     # Only classified when is_equal itself answered correctly (False both ways).
